@@ -23,7 +23,7 @@ variable {K : Type} [Lean.Grind.Field K] [Lean.Grind.IsCharP K 0] [BEq K] [Lawfu
 def addGuard (u0 u1 : TU K) : Bool :=
   !(kind u0.base == .diff && kind u1.base == .point && !(u0.scale exactTab == u1.scale exactTab))
 
-theorem temp_add_partial (u0 u1 : TU K) (x0 x1 : K) (h0 : u0.WF) (h1 : u1.WF) (r : TU K × K)
+theorem temp_add_partial (u0 u1 : TU K) (x0 x1 : K) (h0 : u0.WF) (_h1 : u1.WF) (r : TU K × K)
     (hg : addGuard u0 u1 = true)
     (h : tempAdd exactTab u0 x0 u1 x1 = .ok r) : addSpec u0 x0 u1 x1 r := by
   obtain ⟨c, hc, rfl⟩ := tempAdd_ok h
@@ -135,7 +135,7 @@ theorem temp_cmp_correct (u0 u1 : TU K) (x0 x1 : K) (h0 : u0.WF) (r : K × K)
         · rename_i he
           obtain ⟨hsc, hof⟩ := (unitEq_iff _ _ _).1 he
           obtain ⟨_, hz⟩ := offset_eq_facts u0 u1 hof.symm
-          simp only [absK_eq, hz, true_and]
+          simp only [absK_eq, hz]
           grind
         · simp only [hasOffset_exact, offset_exact_zero, hk0, hk1, delta_repr _ h0] at hc
           have hb0 : (u0.isBare .dC || u0.isBare .dF) = false := by
@@ -172,14 +172,38 @@ theorem temp_add_sub_cmp_refuse_mixed (u0 u1 : TU K) (x0 x1 : K) (h0 : u0.WF)
     ∧ tempCmpArgs exactTab u0 x0 u1 x1 = .error .InvalidUnitOperation := by
   simp [tempAdd, tempSub, tempCmpArgs, temp_refuses_mixed_offset_scales _ u0 u1 h0 hd]
 
-/-! ### multiplicative forms -/
+/-- `np.subtract.reduce` over two readings of one unit (`_difference_units(u)`): difference −
+    difference keeps the unit, point − point of °C / °F is labelled with the matching delta unit -/
+theorem temp_sub_reduce_correct (u : TU K) (x0 x1 : K) (h0 : u.WF) (l : TU K)
+    (h : reduceUnit .difference exactTab u = .ok (some l)) : subSpec u x0 u x1 (l, x0 - x1) := by
+  simp only [reduceUnit, differenceUnits, degF_repr _ h0, degC_repr _ h0, hasOffset_exact] at h
+  split at h
+  · rename_i hd
+    simp only [Except.map, Except.ok.injEq, Option.some.injEq] at h
+    subst h
+    have hk : kind u.base = .diff := by cases hq : kind u.base <;> simp_all
+    simp only [subSpec, hk, difK_eq, true_and]; grind
+  · rename_i hp
+    have hk : kind u.base = .point := by cases hq : kind u.base <;> simp_all
+    split at h
+    · rename_i hb
+      simp only [Except.map, Except.ok.injEq, Option.some.injEq] at h
+      subst h
+      have := (isBare_iff _ _).1 hb
+      subst this
+      simp only [subSpec, hk]
+      exact ⟨rfl, point_point_sub _ _ _ _ _ _ rfl rfl rfl rfl⟩
+    · split at h
+      · rename_i hb
+        simp only [Except.map, Except.ok.injEq, Option.some.injEq] at h
+        subst h
+        have := (isBare_iff _ _).1 hb
+        subst this
+        simp only [subSpec, hk]
+        exact ⟨rfl, point_point_sub _ _ _ _ _ _ rfl rfl rfl rfl⟩
+      · simp [Except.map] at h
 
-theorem offsetTemp_toUnitV [RPow K] (u : TU K) :
-    offsetTemp (toUnitV exactTab u) = onOffsetScale u := by
-  have h := hasOffset_exact u
-  simp only [hasOffset] at h
-  simp only [offsetTemp, toUnitV, h, onOffsetScale]
-  simp
+/-! ### multiplicative forms -/
 
 /-- `*` with an offset-scale quantity on either side (the other operand being any temperature
     quantity, a number, a dimensionless quantity or a quantity of another dimension) is refused -/
@@ -304,29 +328,6 @@ theorem temp_conversions_affine (u v : TU K) (hu : u.WFP) (hv : v.WFP) (x : K) :
       grind
 
 end general
-
-/-! ### the regenerated tables (kernel-decided, rebuilt whenever /repo's tables change) -/
-
-/-- the regenerated rows are `(1, 0)`, `(5/9, 0)`, `(1, −273.15)`, `(5/9, −459.67)`, `(1, 0)`,
-    `(5/9, 0)` within 2⁻⁵⁰, with K, degC, delta_degC prefixable -/
-theorem temp_rows_exact : rowsExact = true := by decide +kernel
-
-/-- exactly (no tolerance): only degC / degF carry an offset, each delta unit has the size of its
-    point unit, K that of delta_degC, R that of delta_degF, no scale is zero -/
-theorem temp_rows_structure : rowsStructure = true := by decide +kernel
-
-/-- degC and degF are the only temperature rows with an offset -/
-theorem temp_universe_closed : universeClosed = true := by decide +kernel
-
-/-- `unit_prefixes` is the SI prefix table -/
-theorem temp_prefixes_exact : prefixesExact = true := by decide +kernel
-
-/-- add / subtract / comparisons / multiply / divide / power / sqrt / … are registered with the
-    unit rules the model assumes -/
-theorem temp_rules_match : rulesMatch = true := by decide +kernel
-
-/-- the literals of the guards in the current source are the ones the model uses -/
-theorem temp_code_constants_match : codeConstantsMatch = true := by decide +kernel
 
 /-! ### the property at full strength, what holds, and why the full statement fails -/
 
